@@ -14,6 +14,7 @@ import ApdVerif.Driver.Proto
 import ApdVerif.Model.Decompose
 import ApdVerif.Lemmas.SqrtDefs
 import ApdVerif.Model.TransObs
+import ApdVerif.Oracle.ExpTapeOK
 /-!
 # Model driver: reads harness lines on stdin, runs the model and the specification oracles,
 prints one line per problem and a summary.  Core Lean only (compiled as `lean_exe driver`).
@@ -225,7 +226,18 @@ def handleCtxOp (id : String) (t : List String) : Option (List String × Nat × 
   | [op, p, emax, emin, traps, mode, xs, ys, ia, "=>", ds, fls, errs, auxs, tapes] =>
     match parseTape tapes with
     | none => none
-    | some tape => handleCtxOpCore id op p emax emin traps mode xs ys ia ds fls errs auxs (some tape)
+    | some tape => do
+      let core ← handleCtxOpCore id op p emax emin traps mode xs ys ia ds fls errs auxs (some tape)
+      -- Exp on its main path (a two-entry tape: working precision, number of series terms): the decisions the real
+      -- call took in float64 arithmetic must satisfy ExpTapeOK, the hypothesis under which C12_exp_accurate bounds
+      -- the error of the result for every operand
+      match op, tape with
+      | "exp", [TapeE.cp cp, TapeE.n n] =>
+        let c ← parseCtx p emax emin traps mode
+        let x := (← parseDec xs).d
+        if Apd.ExpTapeOK c x cp n then pure core
+        else pure (core.1 ++ [s!"{id} MISMATCH tapeok model= the float64 decisions cp={cp} n={n} of this call fall outside ExpTapeOK, the hypothesis of C12_exp_accurate"], core.2.1 + 1, core.2.2)
+      | _, _ => pure core
   | [op, p, emax, emin, traps, mode, xs, ys, ia, "=>", ds, fls, errs, auxs] =>
     handleCtxOpCore id op p emax emin traps mode xs ys ia ds fls errs auxs none
   | [_op, _p, _emax, _emin, _traps, _mode, _xs, _ys, _ia, "=>", what] =>
@@ -948,7 +960,7 @@ def handleParse (id : String) (t : List String) : Option (List String × Nat × 
 /-- `text d verb flags width => (hex reparsed)×5 fmt same compose` (C13, C14) -/
 def handleText (id : String) (t : List String) : Option (List String × Nat × Nat) :=
   match t with
-  | [ds, verb, flh, ws, "=>", hG, rG, hg, rg, hE, rE, he, re, hf, rf, hfmt, same, comp] => do
+  | [ds, verb, flh, ws, "=>", hG, rG, hg, rg, hE, rE, he, re, hf, rf, hfmt, same, comp, hbase] => do
     let d := (← parseDec ds).d
     let w ← ws.toInt?
     let flags ← decodeHex flh
@@ -964,6 +976,21 @@ def handleText (id : String) (t : List String) : Option (List String × Nat × N
                 (if w < 0 then none else some w.toNat)
     let fimpl ← decodeHex hfmt
     if fm != fimpl then res := merge res ([s!"{id} MISMATCH format model= {fm}"], 1, 0)
+    -- C14, the padding rules of fmt (C14_format_width / _minus / _left, and zero padding after the sign for finite
+    -- values only) evaluated on the implementation's own unpadded output for the same verb and sign flags
+    let base := (← decodeHex hbase).toList
+    let padN : Nat := if w < 0 then 0 else w.toNat - base.length
+    let minus := flags.contains '-'
+    let zero := flags.contains '0'
+    let expected : List Char :=
+      if minus then base ++ List.replicate padN ' '
+      else if zero && d.form == .finite then
+        match base with
+        | c :: t => if c == '-' || c == '+' || c == ' ' then c :: (List.replicate padN '0' ++ t) else List.replicate padN '0' ++ base
+        | [] => List.replicate padN '0'
+      else List.replicate padN ' ' ++ base
+    if "eEfFgGvs".contains v && fimpl.toList != expected then
+      res := merge res (propfail id "C14" s!"Format does not pad as fmt prescribes (spaces for NaN/Infinity, zeros after the sign for finite values, '-' wins): expected {String.ofList expected}")
     -- C14: String() is the to-scientific-string (zeros with exponent in [-2000,-7] are written plain)
     let sG ← decodeHex hG
     let zeroPlain := d.form == .finite && d.coeff == 0 && d.exp ≥ -2000 && d.exp ≤ -7
